@@ -149,32 +149,42 @@ def var_names(vs):
     return [v.symbol.name() for v in vs]
 
 
-def complete_point(model, env, salt=0):
-    """values for every symbol of the model's lists: from env by name, expanded scalars 'v[2]' /
-    'der(v)[2]' from their arrays, anything else (delay states, ...) deterministic by name."""
+def _hashed(base, i, salt):
     import hashlib
+    h = hashlib.sha256(("%s|%d|%d" % (base, i, salt)).encode()).digest()
+    return 0.5 + (int.from_bytes(h[:4], "big") % 3000) / 1000.0
+
+
+def split_indexed_name(nm):
+    """'der(c[2].z[1,3])' -> ('der(c.z)', (1, 0, 2)) ; 'x' -> ('x', ())"""
+    import re
+    groups = re.findall(r"\[([^\]]*)\]", nm)
+    base = re.sub(r"\[[^\]]*\]", "", nm)
+    ix = tuple(int(t) - 1 for g in groups for t in g.split(",")) if groups else ()
+    return base, ix
+
+
+def complete_point(model, env, salt=0):
+    """values for every symbol of the model's lists: from env by name; scalars produced by vector
+    expansion ('c[2].z[1]', 'der(v[2])') from the array of their base name; anything else (delay
+    states, ...) deterministic by (base name, flat element index) so that expanded and unexpanded
+    variants of one model get the same numbers."""
     pt = dict(env)
     for l in (model.states, model.der_states, model.alg_states, model.inputs, model.constants, model.parameters):
         for v in l:
             nm = v.symbol.name()
             if nm in pt:
                 continue
-            base, ix = nm, None
-            inner = nm
-            if "[" in nm and nm.endswith("]") and not nm.startswith("_pymoca_delay"):
-                base, rest = nm.rsplit("[", 1)
-                ix = tuple(int(t) - 1 for t in rest[:-1].split(","))
-            elif "[" in nm and nm.endswith("])"):
-                # der(v[2]) style
-                b2, rest = nm[:-1].rsplit("[", 1)
-                base, ix = b2 + ")", tuple(int(t) - 1 for t in rest[:-1].split(","))
-            if ix is not None and base in env:
+            base, ix = split_indexed_name(nm)
+            if ix and base in env:
                 pt[nm] = float(np.asarray(env[base], dtype=float)[ix])
                 continue
-            n = v.symbol.numel()
-            vals = []
-            for i in range(n):
-                h = hashlib.sha256(("%s|%d|%d" % (nm, i, salt)).encode()).digest()
-                vals.append(0.5 + (int.from_bytes(h[:4], "big") % 3000) / 1000.0)
-            pt[nm] = np.array(vals).reshape(v.symbol.size1(), v.symbol.size2(), order="F")
+            n1, n2 = v.symbol.size1(), v.symbol.size2()
+            if ix:
+                # expanded element of a generated symbol: same number as element ix of the vector
+                flat = ix[0] if (len(ix) == 1 or (len(ix) == 2 and ix[1] == 0)) else None
+                pt[nm] = _hashed(base, flat if flat is not None else hash(ix) % 1000, salt)
+            else:
+                vals = [_hashed(nm, i, salt) for i in range(n1 * n2)]
+                pt[nm] = np.array(vals).reshape(n1, n2, order="F")
     return pt
